@@ -293,12 +293,28 @@ def finish(pid, tier, seed, total, extra=None, max_replays=6):
     violations = []
     known_hits = []
     unreproduced = []
-    # a spread of the candidates (not just the first few) is replayed one by one
-    if len(cands) > max_replays:
-        step = len(cands) / max_replays
-        chosen = [cands[int(i * step)] for i in range(max_replays)]
-    else:
-        chosen = cands
+    # Which candidates are replayed one by one: one per table shape first, largest shapes first (size- and
+    # width-dependent defects only reproduce on the big shapes; artefacts of the engine tend to flood the small ones),
+    # then a spread over the rest.
+    def shape(c):
+        if 'objects' in c and 'properties' in c:
+            return (len(c['objects']), len(c['properties']))
+        if 'n' in c:
+            return (c['n'], 0)
+        return (0, 0)
+    max_replays = max(max_replays, 8)
+    by_shape = {}
+    for c in cands:
+        by_shape.setdefault(shape(c), []).append(c)
+    chosen = []
+    for sh in sorted(by_shape, key=lambda t: -(t[0] * max(t[1], 1) + max(t))):
+        if len(chosen) < max_replays - 2 or len(by_shape) <= max_replays:
+            chosen.append(by_shape[sh][0])
+    rest = [c for c in cands if not any(c is x for x in chosen)]
+    if rest and len(chosen) < max_replays:
+        step = max(1, len(rest) // (max_replays - len(chosen)))
+        chosen += rest[::step][:max_replays - len(chosen)]
+    chosen = chosen[:max_replays]
     for c in chosen:
         c = dict(c)
         c['property'] = pid
